@@ -70,8 +70,20 @@ def run(ctx):
         # enumeration range (recorded) and res rows [i,j,k,norm]
         rng = [core.unparse(n_.iter).replace(" ", "") for n_ in ast.walk(fn) if isinstance(n_, ast.For) and "arange" in core.unparse(n_.iter)]
         ctx.extra.setdefault("search_ranges", {})[short] = rng
-        conc = [core.unparse(n_).replace(" ", "") for n_ in ast.walk(fn) if isinstance(n_, ast.Call) and getattr(n_.func, "attr", "") == "concatenate"]
-        ok_rows = any("[[i,j,k," in c and "linalg.norm(tmp)" in c for c in conc)
+        # rows [i, j, k, |A.(i,j,k)|]: the fourth entry is norm(<the candidate vector>) directly or through a local name
+        ok_rows = False
+        for st_, b_ in core.find_stmt("M_res = NP.concatenate((M_res, [[M_i, M_j, M_k, X_len]]))", fn, {}, mod.np_alias):
+            lenexpr = st_.value.args[0].elts[1].elts[0].elts[3]
+            if isinstance(lenexpr, ast.Name):
+                defs = [a_ for a_ in ast.walk(fn) if isinstance(a_, ast.Assign) and isinstance(a_.targets[0], ast.Name)
+                        and a_.targets[0].id == lenexpr.id]
+                lenexpr = defs[-1].value if len(defs) == 1 else None
+            if lenexpr is not None and core.match_expr("NP.linalg.norm(M_v)", lenexpr, {}, mod.np_alias):
+                vname = lenexpr.args[0].id
+                vdefs = [a_ for a_ in ast.walk(fn) if isinstance(a_, ast.Assign) and isinstance(a_.targets[0], ast.Name)
+                         and a_.targets[0].id == vname and a_.lineno < st_.lineno]
+                ok_rows = bool(vdefs) and core.match_expr("NP.dot(%s, NP.array([%s, %s, %s]))" % (amat, b_["M_i"], b_["M_j"], b_["M_k"]),
+                                                          vdefs[-1].value, {}, mod.np_alias) is not None
         ctx.check(ok_rows and len(rng) == 3 and len(set(rng)) == 1, "C18:vectors:%s.enumeration" % short,
                   "candidates are not enumerated as rows [i, j, k, |A.(i,j,k)|] over one integer range in each index (%s)" % rng, where)
         # coverage of the promised search range |u|,|v|,|w| <= 2 with the default uvw: every triple must reach the append
@@ -94,11 +106,64 @@ def run(ctx):
             cover_ok = all(set(range(-2, 3)) <= set(r_) for r_ in rngs.values())
             names = [l_.target.id for l_ in loops]
 
+            rounding = []
+
+            def real_filter(st_, env_):
+                """a filter on real-valued quantities: is it a comparison of two mathematically EQUAL quantities for a unit
+                triple (then rounding decides whether a basis vector of the input survives)?"""
+                from xfabsa.poly import POSITIVE_SCALE_ATOMS
+                t_ = st_.test
+                if not (isinstance(t_, ast.Compare) and len(t_.ops) == 1 and isinstance(t_.ops[0], (ast.Lt, ast.LtE, ast.Gt, ast.GtE))):
+                    return False
+                uc_ = sym_array(fn.args.args[0].arg, (6,))
+                edges = ["%s[%d]" % (fn.args.args[0].arg, q_) for q_ in range(3)]
+                for a_ in edges:
+                    if a_ not in POSITIVE_SCALE_ATOMS:
+                        POSITIVE_SCALE_ATOMS.append(a_)
+                try:
+                    hit = False
+                    for axis in range(3):
+                        e_ = Evaluator(mod, inline=True)
+                        loc_ = {fn.args.args[0].arg: uc_, uvw_name: Rat.const(uvw_def)}
+                        for nm_, v_ in zip(names, [1 if q_ == axis else 0 for q_ in range(3)]):
+                            loc_[nm_] = Rat.const(v_)
+                        # run the statements of the function that precede the loops (a_mat, bounds) and of the loop body before the filter
+                        for pre in core.body_wo_doc(fn):
+                            if isinstance(pre, ast.For):
+                                break
+                            try:
+                                e_.exec_stmt(pre, loc_)
+                            except AnalysisError:
+                                pass
+                        for pre in inner[0].body:
+                            if pre is st_:
+                                break
+                            e_.exec_stmt(pre, loc_)
+                        l_ = scalar(e_.eval(t_.left, loc_))
+                        r_ = e_.eval(t_.comparators[0], loc_)
+                        rk = r_.key() if hasattr(r_, "key") else str(r_)
+                        for a_ in edges:
+                            if l_.equals(Rat.atom(a_)) and a_.split("[")[0] in rk and "max" in rk:
+                                hit = True
+                            if hasattr(r_, "equals") and isinstance(r_, Rat) and l_.equals(r_):
+                                hit = True
+                    return hit
+                finally:
+                    for a_ in edges:
+                        if a_ in POSITIVE_SCALE_ATOMS:
+                            POSITIVE_SCALE_ATOMS.remove(a_)
+
             def reaches_append(stmts, env_):
                 for st_ in stmts:
                     if isinstance(st_, ast.If):
-                        t_ = Evaluator(mod, inline=set()).eval(st_.test, env_)
+                        try:
+                            t_ = Evaluator(mod, inline=set()).eval(st_.test, env_)
+                        except AnalysisError:
+                            t_ = None
                         if not isinstance(t_, bool):
+                            if real_filter(st_, env_):
+                                rounding.append(core.unparse(st_.test))
+                                return False
                             raise AnalysisError("%s.reduce_cell: enumeration filter `%s` does not fold on integers" % (short, core.unparse(st_.test)))
                         r_ = reaches_append(st_.body if t_ else st_.orelse, env_)
                         if r_ is not None:
@@ -114,7 +179,13 @@ def run(ctx):
                 env_[uvw_name] = Rat.const(uvw_def)
                 if reaches_append(inner[0].body, env_) is not True:
                     dropped.append(trip)
-        ctx.check(cover_ok and not dropped, "C18:vectors:%s.coverage" % short,
+        if cover_ok and rounding:
+            ctx.fail("C18:vectors:%s.coverage" % short,
+                     "candidates are pruned by `%s`, which for the input's own basis vectors compares two mathematically equal "
+                     "quantities (|A.e_k| and the cell edge it was computed from) without tolerance: rounding decides whether a vector "
+                     "of the reduced basis is dropped" % rounding[0], where)
+        else:
+          ctx.check(cover_ok and not dropped, "C18:vectors:%s.coverage" % short,
                   "the enumeration does not visit every index triple with |u|,|v|,|w| <= 2 for the default search range: "
                   "dropped %d of 125, e.g. %s" % (len(dropped), dropped[:3]), where,
                   sample={"triples_checked": 125, "dropped": len(dropped)})
